@@ -18,6 +18,7 @@ type Thread struct {
 	done   bool
 	ready  func() bool // nil = runnable
 	name   string
+	harness bool // started by vsym_Go
 }
 
 type mutexState struct {
@@ -228,6 +229,10 @@ func (m *Machine) yieldSync() {
 }
 
 func (m *Machine) spawn(fr *frame, pos token.Pos, fn Value, args []Value) {
+	m.spawnT(fr, pos, fn, args, false)
+}
+
+func (m *Machine) spawnT(fr *frame, pos token.Pos, fn Value, args []Value, harness bool) {
 	name := "go"
 	switch f := fn.(type) {
 	case *ssa.Function:
@@ -236,6 +241,7 @@ func (m *Machine) spawn(fr *frame, pos token.Pos, fn Value, args []Value) {
 		name = f.Fn.String()
 	}
 	t := m.newThread(fmt.Sprintf("%s#%d", name, len(m.threads)))
+	t.harness = harness
 	go m.threadBody(t, func() { m.call(nil, pos, fn, args) }, false)
 	if !m.explore {
 		// run-to-block: the new thread runs first
@@ -252,8 +258,10 @@ func (m *Machine) spawn(fr *frame, pos token.Pos, fn Value, args []Value) {
 func (m *Machine) joinAll() {
 	self := m.cur
 	m.blockUntil(func() bool {
+		// vsym_Join waits for the threads the harness started with vsym_Go; goroutines of the code
+		// under test that never end (watch loops, tickers) do not hold it up
 		for _, t := range m.threads {
-			if t != self && !t.done {
+			if t != self && !t.done && t.harness {
 				return false
 			}
 		}
